@@ -511,6 +511,27 @@ def section_arrays(t: Tally, ctx: Ctx):
     check_codec(t, "legacy_array", W.legacy_array_writer(W.write_int16), R.legacy_array_reader(R.read_int16), None, b"\xff\xff\xff\xff", None, True)
     check_codec(t, "compact_array_length", W.write_compact_array_length, R.read_compact_array_length, -1, b"\x00", -1, True)
     check_codec(t, "legacy_array_length", W.write_legacy_array_length, R.read_legacy_array_length, -1, b"\xff\xff\xff\xff", -1, True)
+    # the factories composed with EVERY fixed-width item reader/writer, items at the limits of the item type, lengths on
+    # both sides of 64 and 128 (bulk paths are usually gated on a size)
+    import struct as _struct
+
+    for suffix, width, signed in (("int8", 1, True), ("uint8", 1, False), ("int16", 2, True), ("uint16", 2, False),
+                                  ("int32", 4, True), ("uint32", 4, False), ("int64", 8, True), ("uint64", 8, False)):
+        rfn, wfn = getattr(R, "read_" + suffix, None), getattr(W, "write_" + suffix, None)
+        if rfn is None or wfn is None:
+            continue
+        lo, hi = (-(2 ** (8 * width - 1)), 2 ** (8 * width - 1) - 1) if signed else (0, 2 ** (8 * width) - 1)
+        edge = [lo, hi, 0, 1, hi - 1, lo + 1, hi // 2, hi // 2 + 1]
+        for n in (1, 3, 8, 63, 64, 65, 130):
+            items = tuple(edge[i % len(edge)] for i in range(n))
+            body = b"".join(be(i, width, signed) for i in items)
+            check_codec(t, f"compact_array_of_{suffix}", W.compact_array_writer(wfn), R.compact_array_reader(rfn), items, uvarint(n + 1) + body, items, True)
+            check_codec(t, f"legacy_array_of_{suffix}", W.legacy_array_writer(wfn), R.legacy_array_reader(rfn), items, be(n, 4, True) + body, items, True)
+    for n in (1, 64, 65):
+        fl = tuple([0.0, -0.0, 1.5, -2.5e300, 5e-324][i % 5] for i in range(n))
+        body = b"".join(_struct.pack(">d", x) for x in fl)
+        check_codec(t, "compact_array_of_float64", W.compact_array_writer(W.write_float64), R.compact_array_reader(R.read_float64), fl, uvarint(n + 1) + body, fl, True,
+                    eq=lambda a, b: a is not None and b is not None and len(a) == len(b) and all(_struct.pack(">d", x) == _struct.pack(">d", y) for x, y in zip(a, b)))
     # nested arrays of strings (item writer composition)
     items = ("", "a", "å€")
     body = b"".join(uvarint(len(s.encode()) + 1) + s.encode() for s in items)
